@@ -711,6 +711,12 @@ Context {F : Type} (K : Fops F) (Kf : is_field K).
 Add Field KF_mlf : Kf.
 Lemma module_laws_field : module_laws K (f0 K) (fadd K) (fmul K) (fun _ => True).
 Proof. repeat split; auto; intros; ring. Qed.
+(* the three extra laws used by lin_rows_convention *)
+Lemma scaling_laws_field :
+  (forall s, fmul K s (f0 K) = f0 K) /\
+  (forall s x y, fmul K s (fadd K x y) = fadd K (fmul K s x) (fmul K s y)) /\
+  (forall s a x, fmul K (fmul K s a) x = fmul K s (fmul K a x)).
+Proof. repeat split; intros; ring. Qed.
 End MLF.
 
 Section Export1.
@@ -854,3 +860,13 @@ Proof.
   apply module_laws_rows, module_laws_rows, module_laws_rows, ML.
 Qed.
 End FourP.
+
+(* the mirrored (symmetric-class) assembly equals the assembly of all blocks when the
+   processed block function is symmetric under swapping the shells *)
+Lemma two_symm_is_full {A} (azero : A) n (Bf : nat -> nat -> list (list A)) :
+  (forall i j, j <= i -> i < n -> transpose azero (Bf j i) = Bf i j) ->
+  two_symm_blocks_t azero n Bf = two_asymm_blocks n n Bf.
+Proof.
+  intros H. unfold two_symm_blocks_t, two_asymm_blocks. f_equal. apply mk_ext. intros i Hi. f_equal.
+  apply mk_ext. intros j Hj. destruct (Nat.ltb_spec i j); [reflexivity|]. now apply H.
+Qed.
